@@ -27,6 +27,14 @@ theorem c03_assign_distinct (sigs : List Sig) (m : HMap) :
     (assignAll m sigs).Pairwise (fun a b => a.isSome = true → a ≠ b) :=
   assignAll_pairwise sigs m
 
+/-- **Total.** A symbol is always found: the search over `a`…`z`, `26`, `27`, … cannot fail, because
+among `n+1` pairwise different candidates at most `n` are in use (pigeonhole); only a signature that
+is already registered under its own hash is refused (the generator's "Function signature repeated"
+abort). -/
+theorem c03_assign_total (m : HMap) (sig : Sig) (hrep : m.find (hashString sig 5) ≠ some (some sig)) :
+    ∃ h, (assign m sig).2 = some h :=
+  assign_total m sig hrep
+
 /-! ## non-vacuity / tests by evaluation -/
 
 -- two signatures that collide under both shift offsets (characters 24 apart swapped)
